@@ -1,6 +1,7 @@
 """C09 - .skf persistence is lossless and independent of the integer width chosen."""
 import os
 import random
+import shutil
 
 from .. import gen as G
 from .. import model as M
@@ -17,13 +18,13 @@ RULE = ('(a) Library round trip through the harness: samples are built in memory
         '30 k, tables from a handful to ~20 000 rows (several compression frames).  (b) Command line: `ska align/map <fastas>` '
         '(in-memory route, k=17) against `ska build` + the same command on the file.  (c) Narrow files: for k in '
         '{33,35,37,41,51,63}, tables whose stored k-mers all fit in 64 bits (arms starting with enough A) next to ordinary '
-        'rows-shifted copies; nk, align, map, distance, weed (with random filter flags), a delete on the file that weed saved, delete and merge in both argument orders must agree with the '
+        'rows-shifted copies; nk, align, map, distance, weed (with random filter flags), a delete on the file that weed saved, delete and merge in both argument orders (output under plain and dotted prefixes, and written over one of the inputs) must agree with the '
         'model, and nk must report k_bits=128.  (e) Files whose table is empty after weeding/filtering (samples, no k-mers): read-out and merge as first, last and middle argument against the model.  (d) One build/save/load/read-out per width under Miri (quick: read-out at k=33; thorough: read-out at k=9,31,33,63 and align/weed/delete/map/distance at k=9 and 33), compared with the native run.  Non-trivial: the file has at least one k-mer and (c) really fits in 64 bits; '
         'distinct = distinct (k, mode, input, operation).')
 ASSUMPTIONS = ['in-memory vs reloaded comparison is model-free; part (c) uses the reference model',
                'the harness reload mimics the command-line width dispatch (u64 first, then u128)']
 REQUIRED = {t: ['rt:nk', 'rt:align', 'rt:dist', 'rt:map', 'rt:vcf', 'rt:weed', 'rt:delete', 'cli:align', 'cli:map',
-                'narrow:nk', 'narrow:align', 'narrow:map', 'narrow:distance', 'narrow:weed', 'narrow:weed-then-delete', 'narrow:delete',
+                'narrow:nk', 'narrow:align', 'narrow:map', 'narrow:distance', 'narrow:weed', 'narrow:weed-then-delete', 'narrow:delete', 'narrow-merge-output:dotted', 'narrow-merge-output:onto-first-input', 'narrow-merge-output:onto-second-input',
                 'narrow:merge-first', 'narrow:merge-second', 'narrow_files_fit_64_bits', 'multi_frame_files', 'rt_rows_compared', 'miri_round_trips', 'empty:nk', 'empty:merge-first', 'empty:merge-second', 'empty:merge-middle']
             for t in ('quick', 'thorough')}
 NARROW_K = [33, 35, 37, 41, 51, 63]
@@ -343,13 +344,14 @@ def run_narrow(desc, ctx, res):
                         res.count('narrow:weed-then-delete')
         # delete
         dn = sorted(rng.sample(range(ns), rng.randint(1, ns - 1)))
-        p = ctx.sh(b, 'delete', '-s', ctx.path('narrow.skf'), '-o', ctx.path('deleted'), *[names[i] for i in dn])
+        delname = 'deleted' if desc['seed'] % 2 else 'kept.2024-06'          # output prefixes with and without dots
+        p = ctx.sh(b, 'delete', '-s', ctx.path('narrow.skf'), '-o', ctx.path(delname), *[names[i] for i in dn])
         if not chk_overflow(p):
             res.evals += judged
             ok = p.returncode == 0
             if ok:
                 try:
-                    hd, Td = G.nk(ctx, ctx.path('deleted.skf'), binary=b)
+                    hd, Td = G.nk(ctx, ctx.path(delname + '.skf'), binary=b)
                     ok = Td == M.t_delete(rowsN, set(dn)) and hd.get('k_bits') == '128'
                 except (G.NkFailed, ValueError):
                     ok = False
@@ -359,8 +361,19 @@ def run_narrow(desc, ctx, res):
                 res.count('narrow:delete')
         # merge in both argument orders
         for order, label in (((('narrow', rowsN, fN), ('wide', rowsW, fW)), 'merge-first'), ((('wide', rowsW, fW), ('narrow', rowsN, fN)), 'merge-second')):
-            out = ctx.path('m_' + label)
-            p = ctx.sh(b, 'merge', ctx.path(order[0][0] + '.skf'), ctx.path(order[1][0] + '.skf'), '-o', out)
+            # the merged file under a plain prefix, under a prefix with dots, or written over a copy of one of its own inputs
+            mode_ = ['plain', 'dotted', 'onto-first-input', 'onto-second-input'][(desc['seed'] + len(label)) % 4]
+            in0, in1 = ctx.path(order[0][0] + '.skf'), ctx.path(order[1][0] + '.skf')
+            out = ctx.path({'plain': 'm_' + label, 'dotted': 'coll.v1.' + label}.get(mode_, 'grow_' + label))
+            if mode_.startswith('onto'):
+                shutil.copy(in0 if mode_ == 'onto-first-input' else in1, out + '.skf')
+                if mode_ == 'onto-first-input':
+                    in0 = out + '.skf'
+                else:
+                    in1 = out + '.skf'
+            if judged:
+                res.count('narrow-merge-output:' + mode_)
+            p = ctx.sh(b, 'merge', in0, in1, '-o', out)
             if chk_overflow(p):
                 continue
             res.evals += judged
